@@ -546,7 +546,7 @@ void checkTB(const sess::History& h, const uci::Model& m, vf::Result& res) {
 
 void runC13(const Scenario& sc, vf::Result& res) {
     sess::History h;
-    sess::runSession(sc, h, res);
+    harness_session_run(&sc, &h, &res);
     uci::Model m;
     uci::buildModel(h, m);
     uci::checkContract(h, m, res);
